@@ -24,6 +24,9 @@ pub struct Gen<'a> {
     pub rels: Vec<usize>,
     pub nomerge: Option<usize>,
     pub pending: Vec<Cmd>,
+    /// C05: scripted prefix where many different bit patterns are folded into one key within one
+    /// iteration (bit-or / bit-and are not selective: the fold is none of the written values)
+    pub batch_mode: bool,
 }
 
 impl<'a> Gen<'a> {
@@ -53,9 +56,10 @@ impl<'a> Gen<'a> {
         }
         let mut funcs = Vec::new();
         let nf = if bias == Bias::C05 { r.range(1, 2) } else { r.range(0, 1) };
+        let batch_mode = bias == Bias::C05 && r.chance(2, 5);
         for i in 0..nf {
             funcs.push(decls.len());
-            let m = match r.below(if bias == Bias::C05 { 4 } else { 3 }) {
+            let m = match if batch_mode { 2 + r.below(2) } else { r.below(if bias == Bias::C05 { 4 } else { 3 }) } {
                 0 => Merge::Min,
                 1 => Merge::Max,
                 2 => Merge::Or,
@@ -73,7 +77,7 @@ impl<'a> Gen<'a> {
             rels.push(decls.len());
             decls.push(Decl { name: "R".into(), kind: Kind::Rel, args: vec![Sort::S] });
         }
-        Gen { r, bias, p: Program { decls, cmds: vec![] }, nullary, unary, binary, num, funcs, rels, nomerge, pending: vec![] }
+        Gen { r, bias, p: Program { decls, cmds: vec![] }, nullary, unary, binary, num, funcs, rels, nomerge, pending: vec![], batch_mode }
     }
 
     pub fn term(&mut self, depth: usize) -> Pat {
@@ -374,8 +378,56 @@ impl<'a> Gen<'a> {
         }
     }
 
+    /// scripted prefix of a batch-mode session: distinct keys of `gf` get distinct bit patterns,
+    /// a rule folds all of them into one key of `gt` within one iteration, then a later batch adds more
+    fn batch_script(&mut self) {
+        let gf = self.funcs[0];
+        let gt = *self.funcs.last().unwrap();
+        let k = *self.r.pick(&self.nullary);
+        let f = *self.r.pick(&self.unary);
+        const BITS: [i64; 12] = [1, 2, 4, 8, 3, 5, 6, 9, 12, -2, -3, -5];
+        let mut script: Vec<Cmd> = Vec::new();
+        let n = self.r.range(3, 6);
+        let mut keys: Vec<Pat> = Vec::new();
+        for i in 0..n {
+            let base = Pat::App(self.nullary[i % self.nullary.len()], vec![]);
+            let t = self.tower(f, i / self.nullary.len(), base);
+            keys.push(t.clone());
+            script.push(Cmd::Act(Action::Set(gf, vec![t], Pat::Int(*self.r.pick(&BITS)))));
+        }
+        let rule = match self.r.below(3) {
+            0 => Rule {
+                body: vec![Fact::Eq(0, Pat::App(gf, vec![Pat::Var(1)]))],
+                head: vec![Action::Set(gt, vec![Pat::App(k, vec![])], Pat::Var(0))],
+            },
+            1 => Rule {
+                body: vec![Fact::Eq(0, Pat::App(gf, vec![Pat::Var(1)])), Fact::Eq(2, Pat::App(f, vec![Pat::Var(3)]))],
+                head: vec![Action::Set(gt, vec![Pat::Var(2)], Pat::Var(0))],
+            },
+            _ => Rule {
+                body: vec![Fact::Eq(0, Pat::App(gf, vec![Pat::Var(1)])), Fact::Eq(2, Pat::App(gf, vec![Pat::Var(3)]))],
+                head: vec![Action::Set(gt, vec![Pat::Var(1)], Pat::Var(2))],
+            },
+        };
+        script.push(Cmd::Rule(rule));
+        script.push(Cmd::Run(1));
+        // a second batch: more patterns, possibly a union making two keys collide, run again
+        let t = self.term(2);
+        script.push(Cmd::Act(Action::Set(gf, vec![t], Pat::Int(*self.r.pick(&BITS)))));
+        if self.r.chance(1, 2) && keys.len() >= 2 {
+            script.push(Cmd::Act(Action::Union(keys[0].clone(), keys[1].clone())));
+        }
+        script.push(Cmd::Run(self.r.range(1, 2)));
+        script.reverse();
+        self.pending = script;
+    }
+
     pub fn program(mut self, ncmds: usize) -> Program {
         let mut seen_rules: Vec<String> = Vec::new();
+        if self.batch_mode && !self.funcs.is_empty() {
+            self.batch_script();
+        }
+        let ncmds = if self.batch_mode { ncmds.max(self.pending.len() + 1) } else { ncmds };
         for _ in 0..ncmds {
             let mut c = self.command();
             if let Cmd::Rule(_) = &c {
